@@ -16,14 +16,22 @@ import (
 type Keystore struct {
 	mu   sync.Mutex
 	keys map[string]crypto.PrivKey
+	// Gen distinguishes keys created by different keystore generations: a key that has to be created
+	// again after a recovery differs from the lost one, as a freshly generated real key would.
+	Gen  int
+	peer *Peer
 	// Created counts CreateKey calls (a restarted peer must not need a new key).
 	Created int
 }
 
 func NewKeystore() *Keystore { return &Keystore{keys: map[string]crypto.PrivKey{}} }
 
-func derive(id string) crypto.PrivKey {
-	seed := sha256.Sum256([]byte("verif-key-" + id))
+func derive(id string, gen int) crypto.PrivKey {
+	tag := "verif-key-" + id
+	if gen > 0 {
+		tag = fmt.Sprintf("verif-key-gen%d-%s", gen, id)
+	}
+	seed := sha256.Sum256([]byte(tag))
 	// libp2p's GenerateSecp256k1Key ignores its reader, so build the key from the seed bytes directly
 	priv, err := crypto.UnmarshalSecp256k1PrivateKey(seed[:])
 	if err != nil {
@@ -42,9 +50,13 @@ func (k *Keystore) HasKey(_ context.Context, id string) (bool, error) {
 func (k *Keystore) CreateKey(_ context.Context, id string) (crypto.PrivKey, error) {
 	k.mu.Lock()
 	defer k.mu.Unlock()
-	p := derive(id)
+	p := derive(id, k.Gen)
 	k.keys[id] = p
 	k.Created++
+	if k.peer != nil {
+		raw, _ := p.Raw()
+		k.peer.logEffect(Effect{Kind: "key-put", Key: id, Value: raw})
+	}
 	return p, nil
 }
 
@@ -68,6 +80,18 @@ func (k *Keystore) Verify(sig []byte, pub crypto.PubKey, data []byte) error {
 	if !ok {
 		return fmt.Errorf("sim: signature not verified")
 	}
+	return nil
+}
+
+// Restore installs a persisted key (recovered worlds).
+func (k *Keystore) Restore(id string, raw []byte) error {
+	p, err := crypto.UnmarshalSecp256k1PrivateKey(raw)
+	if err != nil {
+		return err
+	}
+	k.mu.Lock()
+	k.keys[id] = p
+	k.mu.Unlock()
 	return nil
 }
 
